@@ -218,6 +218,8 @@ class FnTr:
             return f'(List.getD {s} {i} (0:Int))', et
         if et == 'bool':
             return f'(List.getD {s} {i} false)', et
+        if is_list(et):
+            return f'(List.getD {s} {i} [])', et
         raise Unsupported(f'index of list of {et}')
 
     def path(self, p):
@@ -252,6 +254,12 @@ class FnTr:
             s, t2 = sub.expr(ex, t)
             s, t2 = sub.convert(s, t2, t)
             return s, t
+        if is_list(t):
+            if name not in self.tr.const_defs:
+                sub = FnTr(self.tr, Ctx('', None, None))
+                s, t2 = sub.expr(ex, t)
+                self.tr.const_defs[name] = (f'def {name} {{α : Type}} [RealLike α] : {ty_str(t)} :=\n  {s}', file)
+            return f'({name} (α := α))', t
         raise Unsupported(f'const {name} of type {ty}')
 
     def field(self, e):
@@ -447,6 +455,8 @@ class FnTr:
                 return self.ret_value(final[1], want)
             if final[0] in ('if', 'match', 'for', 'while') and self.is_stmt_like(final):
                 return self.seq([('expr', final)], None, want, is_fn_body)
+            if final[0] == 'assign' or (final[0] == 'mcall' and final[2] == 'for_each'):
+                return self.seq([('expr', final)], None, want, is_fn_body)
             s, t = self.expr_top(final, want)
             return self.wrap_result(s, t, is_fn_body)
         st = stmts[0]
@@ -458,6 +468,13 @@ class FnTr:
             wt = self.tr.rust_ty(ty, c) if ty is not None else None
             if wt is not None and isinstance(wt, tuple) and wt[0] == 'other':
                 wt = None
+            if init[0] == 'try':
+                s, t = self.expr_top(init[1], ('except', wt) if wt else None)
+                if not (isinstance(t, tuple) and t[0] == 'except'):
+                    raise Unsupported(f'? on {t}')
+                binder = self.bind_pattern(pat, t[1], init)
+                body, bt = self.seq(rest, final, want, is_fn_body)
+                return f'(match {s} with | Except.error err_ => Except.error err_ | Except.ok {binder} => {body})', bt
             s, t = self.expr_top(init, wt)
             if wt in NUMERIC and t in NUMERIC:
                 s, t = self.convert(s, t, wt)
@@ -710,6 +727,12 @@ class FnTr:
             return self.seq(rest, final, want, is_fn_body)
         if k == 'return':
             return self.ret_value(ex[1], want)
+        if k == 'try':
+            s, t = self.expr_top(ex[1])
+            if not (isinstance(t, tuple) and t[0] == 'except'):
+                raise Unsupported(f'? on {t}')
+            body, bt = self.seq(rest, final, want, is_fn_body)
+            return f'(match {s} with | Except.error err_ => Except.error err_ | Except.ok _ => {body})', bt
         if k == 'assign':
             return self.assign(ex, rest, final, want, is_fn_body)
         if k == 'if':
